@@ -183,3 +183,14 @@ chk("C13", "model_checking",
     "recorded known finding.",
     "TLA+ concurrency spec + TLC; exhaustive schedule re-enactment through blocking hooks under the race detector; trace validation of stress hook logs",
     "DESIGN.md 3 (C13)", "tlc+harness/cmd/clientconc")
+
+chk("C10", "model_checking",
+    "ClientFault.tla specifies the blocking calls of a client session under faults (EOF, read error, failing writes, stall followed by the client's own timeout or by "
+    "Close): success only with the tagged completion fully delivered (safety) and, under fairness, every issued call returns, Close returns and the reader exits "
+    "(liveness) - model-checked by TLC. Three session scripts covering every kind of blocking call (Wait; streaming Collect with body literals; STORE/EXPUNGE streams; "
+    "APPEND with continuation request; AUTHENTICATE exchange; IDLE; three pipelined commands answered out of order; LOGOUT) are run against a scripted server whose reply "
+    "stream is cut at every byte offset with each fault (quick: every 3rd offset plus all completion boundaries), with deadlines in virtual time; ClientFaultTrace judges every run.",
+    "Deadlines are virtual (an armed read deadline fires at once); where the client has none the caller closes after 40 ms; 'does not return' = 4 s; STARTTLS transcripts are "
+    "not in the corpus. One benign deviation (success once the CR of the tagged line is read) is a recorded known finding.",
+    "TLA+ spec + TLC (safety and liveness); fault injection at every byte offset of scripted sessions; trace validation of recorded runs",
+    "DESIGN.md 3 (C10)", "tlc+harness/cmd/clientfault")
